@@ -226,12 +226,19 @@ func TestC10Adversarial(t *testing.T) {
 		}
 		// Fill every table with generated routes.
 		cycleLikely := false
+		forceCycle := topo.hasCycle() && c.Bool("force.cycle")
 		for i, n := range ms.nodes {
 			for _, dst := range dsts {
-				if dst == n.IP() || !c.Chance("route.present", 3, 4) {
+				if dst == n.IP() {
+					continue
+				}
+				if !(forceCycle && !ms.idx2has(dst)) && !c.Chance("route.present", 3, 4) {
 					continue
 				}
 				nb := adj[i][c.Pick("route.nexthop", len(adj[i]))]
+				if forceCycle && topo.hasEdge(i, (i+1)%topo.n) && !ms.idx2has(dst) {
+					nb = (i + 1) % topo.n // foreign destinations circulate around the ring
+				}
 				relay := ms.nodes[c.Pick("route.relay", topo.n)].IP()
 				_, err := n.Rtr.Table().AddRoute(m.RoutingTableEntry{
 					DstIP: dst, NextHop: ms.nodes[nb].IP(), Source: m.RouteSourceGossip, Expires: time.Now().Add(time.Hour),
@@ -255,6 +262,9 @@ func TestC10Adversarial(t *testing.T) {
 			at := c.Int("frame.at", 0, topo.n-1)
 			X := ms.nodes[at]
 			dst := dsts[c.Pick("frame.dst", len(dsts))]
+			if forceCycle && c.Bool("frame.foreign") {
+				dst = dsts[len(dsts)-1-c.Pick("frame.foreign.k", 3)]
+			}
 			mt := frame.MessageType(core.OneOf(c, "frame.type", 1, 2, 8, 16, 17, 0, 3, 99))
 			ttl := core.OneOf(c, "frame.ttl", 1, 2, 3, 5, 8, 32, 64, 255)
 			if c.Bool("frame.ttl.rand") {
@@ -360,6 +370,8 @@ func TestC10Adversarial(t *testing.T) {
 		}
 	})
 }
+
+func (ms *mesh) idx2has(a netip.Addr) bool { _, ok := ms.idx[a]; return ok }
 
 func putUvarint(buf []byte, x uint64) int {
 	i := 0
